@@ -206,9 +206,17 @@ func (i *interpreter) guard(fr *frame, fn value, budget int64) (res int) {
 	saved := i.eng.cfg.MaxSteps
 	limit := p.steps + budget
 	i.guardLimit = append(i.guardLimit, limit)
+	// a guarded call is also bounded in symbolic decisions (1 per 1000 steps of
+	// budget, at least 64): a loop that forks on every iteration is cut early
+	dlim := len(p.decisions) + int(budget/1000)
+	if budget/1000 < 64 {
+		dlim = len(p.decisions) + 64
+	}
+	i.guardDecLimit = append(i.guardDecLimit, dlim)
 	depth0 := i.depth
 	defer func() {
 		i.guardLimit = i.guardLimit[:len(i.guardLimit)-1]
+		i.guardDecLimit = i.guardDecLimit[:len(i.guardDecLimit)-1]
 		i.depth = depth0
 		_ = saved
 		r := recover()
@@ -219,7 +227,7 @@ func (i *interpreter) guard(fr *frame, fn value, budget int64) (res int) {
 		case pathAbort:
 			switch r.kind {
 			case abGuardBudget:
-				if p.steps > limit {
+				if p.steps > limit || len(p.decisions) >= dlim {
 					i.lastGuard = r.reason
 					res = 2
 					return
